@@ -16,7 +16,7 @@ pub fn spec() -> PropSpec {
     PropSpec {
         id: "C08",
         level: "exploration",
-        rule: "generated true positions stratified over every NL zone (uniform inside), 1e-4..1e-2 deg around each of the 58 zone boundaries, the equator, |lat| up to 86.9, longitudes uniform plus the +-180 / 0 neighbourhoods, both hemispheres; encoded by an independent CPR encoder (DO-260B A.1.7) into an even and an odd airborne-position squitter (TC 9..18), second frame displaced 0..3 km, either order, delays 0..8, 9, 10, 11, 30 s (simulated by shifting the stored time stamps), 0..3 unrelated frames of the same aircraft in between, with/without an earlier valid position, optional zero CPR field, -U on/off, observer given as 'lat,lon' with optional blanks. Oracle: valid pair (both fields non-zero, gap < 10 whole seconds by the interval rule, same NL zone, > 1e-6 deg from a boundary) => shown point within 20 m of the newer frame's position, lat/lon in range, distance = independent great-circle distance +- 1 m; otherwise lat, lon, distance and position stamp are unchanged by the frame. A share of the valid pairs is also run through the built CLI with -O \"lat, lon\": LATITUDE / LONGITUDE / DIST cells of the printed row must agree. Non-trivial = valid pairs; distinct by hash of the case",
+        rule: "generated true positions stratified over every NL zone (uniform inside), 1e-4..1e-2 deg around each of the 58 zone boundaries, the equator, |lat| up to 86.9, longitudes uniform plus the +-180 / 0 neighbourhoods, both hemispheres; encoded by an independent CPR encoder (DO-260B A.1.7) into an even and an odd airborne-position squitter (TC 9..18), second frame displaced 0..3 km, either order, delays 0..8, 9, 10, 11, 30 s, around one and two days, and at the wrap points of 8/16/31/32-bit second and millisecond counters (65 s, 256 s, 65536 s, 24.8 d, 49.7 d, 2^31 s, 2^32 s) (simulated by shifting the stored time stamps), 0..3 unrelated frames of the same aircraft in between, with/without an earlier valid position, optional zero CPR field, -U on/off, observer given as 'lat,lon' with optional blanks. Oracle: valid pair (both fields non-zero, gap < 10 whole seconds by the interval rule, same NL zone, > 1e-6 deg from a boundary) => shown point within 20 m of the newer frame's position, lat/lon in range, distance = independent great-circle distance +- 1 m; otherwise lat, lon, distance and position stamp are unchanged by the frame. A share of the valid pairs is also run through the built CLI with -O \"lat, lon\": LATITUDE / LONGITUDE / DIST cells of the printed row must agree. Non-trivial = valid pairs; distinct by hash of the case",
         assumptions: &["reference CPR encoder and closed-form NL(lat)", "elapsed time simulated by shifting the public time-stamp fields; a case whose measured wall time makes the whole-second gap ambiguous is discarded and counted", "R = 6371 km"],
         workers: 16,
         also_nochk: false,
@@ -254,7 +254,7 @@ fn between_strategy(addr: u32) -> BoxedStrategy<Vec<Frame>> {
 }
 
 pub fn case_strategy() -> BoxedStrategy<PosCase> {
-    let delay = prop_oneof![8 => 0i64..=8, 4 => Just(9i64), 4 => Just(10i64), 2 => Just(11i64), 2 => Just(30i64), 1 => Just(86_400i64 - 4), 1 => Just(86_400i64 + 3), 1 => Just(2 * 86_400i64 - 2), 1 => Just(3600i64)];
+    let delay = prop_oneof![8 => 0i64..=8, 4 => Just(9i64), 4 => Just(10i64), 2 => Just(11i64), 2 => Just(30i64), 1 => Just(86_400i64 - 4), 1 => Just(86_400i64 + 3), 1 => Just(2 * 86_400i64 - 2), 1 => Just(3600i64), 2 => proptest::sample::select(vec![65i64, 66, 131, 256, 257, 65_536, 65_538, 2_147_483, 2_147_484, 4_294_967, 4_294_970, 8_589_934, 1i64 << 31, (1i64 << 31) + 2, 1i64 << 32, (1i64 << 32) + 3])];
     let obs = prop_oneof![1 => Just(None), 4 => (-89.0f64..89.0, -179.0f64..179.0, any::<u8>()).prop_map(|(a, b, s)| Some(((a * 1e4).round() / 1e4, (b * 1e4).round() / 1e4, s))), 1 => Just(Some((52.66411442720024, -8.622299905360963, 2u8)))];
     let prior = prop_oneof![2 => Just(None), 1 => (-80.0f64..80.0, -170.0f64..170.0).prop_map(Some)];
     (
